@@ -246,6 +246,10 @@ func (s ExtendedSpatialID) Higher(hDiff, vDiff int64) *ExtendedSpatialID {
 	var x = s.x / hDiv
 	var y = s.y / hDiv
 	var z = s.z / vDiv
+	if s.z%vDiv < 0 {
+		// 負の高さIDは0方向ではなく下方向(床関数)に丸める
+		z--
+	}
 
 	return &ExtendedSpatialID{
 		hZoom: hZoom,
